@@ -395,6 +395,13 @@ def rule5_getters(ctx, fl):
         okg = okg and l is not None and l.op == 'load' and g.field(l) == 'myth_globalattr_t.n_workers' and \
             isinstance(g.ap(l.ops[0]).root, dict) and g.ap(l.ops[0]).root.get('g') == 'g_attr'
     ctx.ob('C15.5', 'myth_get_num_workers returns g_attr.n_workers', okg, 'the count the workers were created from', loc=g.loc)
+    for fn_ in (f, g):
+        ei = [c for c in fn_.calls() if c.callee in ('myth_ensure_init', 'myth_init_ex_body')]
+        lds = [l for l in fn_.order if l.op == 'load' and fn_.field(l) in ('myth_running_env.rank', 'myth_globalattr_t.n_workers')]
+        ctx.ob('C15.5', '%s initialises the library before it answers' % fn_.name, bool(ei) and bool(lds) and
+               all(any(fn_.dominates_f(c, l) for c in ei) for l in lds),
+               'implicit initialisation on first use: asked before myth_init, the count / index is that of the runtime it starts',
+               loc=fn_.loc)
 
 
 def rule5_workers(ctx, fl):
@@ -597,8 +604,8 @@ def run(ctx):
         vg = ctx.view('myth_if_native.c', roots=['myth_globalattr_%s_%s_body' % (a, x) for a in ('set', 'get') for x in NAMES],
                       stops=('myth_globalattr_init_body',), flavour=fl)
         lib.accessor_agreement(ctx, 'C15.10', vg, 'myth_globalattr_t', 'myth_globalattr_set_%s_body', 'myth_globalattr_get_%s_body',
-                               dict((x, [(1, x)]) for x in NAMES))
-        ctx.floor('C15.10', 10)
+                               dict((x, [(1, x)]) for x in NAMES), null_default='g_attr')
+        ctx.floor('C15.10', 20)
         rule5_workers(ctx, fl)
 
 
